@@ -1,4 +1,5 @@
 import Driver.TransportCommon
+import RsMatterVerif.Model.Rendezvous
 /-! Driver for C20 (unit level): model correspondence + the property's specification on the
 implementation's own outputs:
 * a session slot is `reserved` only while a live `ReservedSession` owns it; dropping the handle
@@ -31,6 +32,13 @@ structure OSt where
 Written from the property text; looks only at what the harness read from the REAL tables at
 quiescence and at the outcome of the probe handshakes. -/
 
+def kvOf (ws : List String) (k : String) : String :=
+  match ws.find? (·.startsWith (k ++ "=")) with
+  | some w => (w.drop (k.length + 1)).toString
+  | none => ""
+
+def kvNat (ws : List String) (k : String) : Nat := (kvOf ws k).toNat?.getD 0
+
 structure SysSt where
   /-- sessions in use put into the table (`pin`) -/
   pinned : Nat := 0
@@ -40,14 +48,117 @@ structure SysSt where
   pending : List String := []
   /-- the last `quiesce` ran long enough for every time-out to fire -/
   settled : Bool := false
+  /-- case flag `mdnsr=1`: a responder task picks every request up (-> in flight) and never answers -/
+  mdnsr : Bool := false
+  /-- the `rdv` ops seen so far: (op index, browse?, at, cancel, the implementation's result) -/
+  rdv : List (Nat × Bool × Nat × Option Nat × String) := []
+  /-- number of op lines seen / virtual time spent in `quiesce` ops so far -/
+  nOps : Nat := 0
+  qTime : Nat := 0
+  /-- an `rdv` op was listed after a `quiesce`: the replay below does not apply -/
+  rdvLate : Bool := false
 deriving Inhabited
 
-def kvOf (ws : List String) (k : String) : String :=
-  match ws.find? (·.startsWith (k ++ "=")) with
-  | some w => (w.drop (k.length + 1)).toString
-  | none => ""
+/-! ### Tie of `Model/Rendezvous.lean` to the real rendezvous slots
+The script of a `sys` case fixes when each waiter enters `resolve` / `browse_commissionable`
+(`at=`), when its caller drops it (`cancel=`), and whether a responder picks requests up (`mdnsr`).
+The replay feeds exactly these events, in time order, to the MODEL (`Rendezvous.step`): `arrive`,
+`place` (offered to every queued waiter, in task order, whenever something changed - the model
+refuses it unless the slot is idle), `pickup`, `cancel`, and `timeout` of the placed waiter
+`timeout` ms after the model says it placed its request. Then the model's slot state at the instant
+of a `quiesce` is compared with what the harness read from the real node (`rdv=`), and the model's
+verdict on each finished waiter (`cancelled` / `err:NotFound`) with the real result. Events closer
+than `margin` to each other or to the instant of the reading are not compared (the executor
+advances the virtual clock in steps of up to 25 ms). -/
 
-def kvNat (ws : List String) (k : String) : Nat := (kvOf ws k).toNat?.getD 0
+structure RdvW where
+  id : Nat
+  start : Nat
+  cancel : Option Nat
+  res : String
+
+structure RdvSim where
+  st : Rendezvous.St := {}
+  /-- waiter id -> instant at which the model placed its request -/
+  placedAt : List (Nat × Nat) := []
+  /-- waiter id -> (instant, predicted result) -/
+  done : List (Nat × Nat × String) := []
+  ambiguous : Bool := false
+
+/-- the harness passes 3000 ms to `browse_commissionable`; `resolve` uses `RESOLVE_TIMEOUT_MS` -/
+def rdvTimeout (browse : Bool) : Nat := if browse then 3000 else Consts.mdnsResolveTimeoutMs
+
+/-- offer `place` to every queued waiter in task (= op) order; then the responder's pick-up -/
+def rdvSettle (sim : RdvSim) (order : List Nat) (mdnsr : Bool) (now : Nat) : RdvSim :=
+  let sim := order.foldl (fun (sim : RdvSim) w =>
+    if sim.st.queued.contains w then
+      let st' := Rendezvous.step sim.st (.place w)
+      if st'.placed.contains w then { sim with st := st', placedAt := (w, now) :: sim.placedAt } else { sim with st := st' }
+    else sim) sim
+  if mdnsr then { sim with st := Rendezvous.step sim.st .pickup } else sim
+
+/-- the next event after `last`: (time, kind 0 = arrive / 1 = cancel / 2 = timeout, waiter) -/
+def rdvNext (ws : List RdvW) (sim : RdvSim) (timeout : Nat) (arrived : List Nat) : Option (Nat × Nat × Nat) :=
+  let live (w : Nat) : Bool := sim.st.queued.contains w || sim.st.placed.contains w
+  let cands : List (Nat × Nat × Nat) :=
+    (ws.filter (fun w => !arrived.contains w.id)).map (fun w => (w.start, 0, w.id)) ++
+    (ws.filter (fun w => arrived.contains w.id && live w.id)).filterMap (fun w => w.cancel.map (fun c => (w.start + c, 1, w.id))) ++
+    sim.placedAt.filterMap (fun (w, t) => if sim.st.placed.contains w then some (t + timeout, 2, w) else none)
+  cands.foldl (fun best c => match best with
+    | none => some c
+    | some b => if c.1 < b.1 || (c.1 == b.1 && c.2.1 < b.2.1) then some c else some b) none
+
+def rdvLoop (ws : List RdvW) (timeout : Nat) (mdnsr : Bool) (q margin : Nat) :
+    Nat → RdvSim → List Nat → Nat → RdvSim
+  | 0, sim, _, _ => { sim with ambiguous := true }
+  | fuel + 1, sim, arrived, last =>
+    match rdvNext ws sim timeout arrived with
+    | none => sim
+    | some (t, kind, w) =>
+      if t > q + margin then sim
+      else
+        let amb := sim.ambiguous || (t + margin > q) || (last != 0 && t < last + margin && t != last) ||
+          (kind != 0 && t < last + margin)
+        if t > q then { sim with ambiguous := true } else
+        let order := ws.map (·.id)
+        match kind with
+        | 0 =>
+          let sim := { sim with st := Rendezvous.step sim.st (.arrive w), ambiguous := amb }
+          rdvLoop ws timeout mdnsr q margin fuel (rdvSettle sim order mdnsr t) (w :: arrived) t
+        | 1 =>
+          let sim := { sim with st := Rendezvous.step sim.st (.cancel w), done := (w, t, "cancelled") :: sim.done, ambiguous := amb }
+          rdvLoop ws timeout mdnsr q margin fuel (rdvSettle sim order mdnsr t) arrived t
+        | _ =>
+          let sim := { sim with st := Rendezvous.step sim.st (.timeout w), done := (w, t, "err:NotFound") :: sim.done, ambiguous := amb }
+          rdvLoop ws timeout mdnsr q margin fuel (rdvSettle sim order mdnsr t) arrived t
+
+/-- replay one slot kind up to the instant `q`; `none` = nothing comparable, `some (letter, mismatches)` -/
+def rdvReplay (all : List (Nat × Bool × Nat × Option Nat × String)) (browse mdnsr : Bool) (q : Nat) :
+    Option (String × List String) :=
+  let ws : List RdvW := (all.filter (fun r => r.2.1 == browse)).reverse.map (fun r => { id := r.1, start := r.2.2.1, cancel := r.2.2.2.1, res := r.2.2.2.2 })
+  let margin := 60 * (ws.length + 1)
+  let sim := rdvLoop ws (rdvTimeout browse) mdnsr q margin (4 * ws.length + 4) {} [] 0
+  if sim.ambiguous then none else
+  let letter := if sim.st.slot == .idle then "i" else "B"
+  let bad := ws.filterMap (fun w =>
+    match sim.done.find? (·.1 == w.id) with
+    | some (_, _, r) => if (words w.res).headD "" == r then none else some s!"waiter {w.id}: model {r}, implementation {w.res}"
+    | none => none)
+  some (letter, bad)
+
+/-- the model's reading of both slots against the implementation's (`rdv=<resolve><browse>`) -/
+def rdvTie (s : SysSt) (rw : List String) (q : Nat) : Option String :=
+  if s.rdvLate then none else
+  let impl : List String := (kvOf rw "rdv").toList.map (fun c => c.toString)
+  let one (browse : Bool) (got : String) (what : String) : Option String :=
+    match rdvReplay s.rdv browse s.mdnsr q with
+    | none => none
+    | some (letter, bad) =>
+      if letter != got then some s!"{what} slot: model {letter}, implementation {got}"
+      else bad.head?
+  match one false (impl.getD 0 "?") "resolve" with
+  | some d => some d
+  | none => one true (impl.getD 1 "?") "browse"
 
 /-- every time-out of the device has fired after this much silence: receive time-out of a handler
 (≈ 40 s with the default retry ladders), PASE in-progress marker 60 s, accept deadline 1 s -/
@@ -104,6 +215,7 @@ def sysProbe (s : SysSt) (w rw : List String) : Option String :=
       else none
 
 def sysStep (s : SysSt) (w : List String) (res : String) : SysSt × String :=
+  let s := { s with nOps := s.nOps + 1 }
   let rw := words res
   let head := w.getD 0 ""
   let v (s : SysSt) (o : Option String) : SysSt × String :=
@@ -114,7 +226,13 @@ def sysStep (s : SysSt) (w : List String) (res : String) : SysSt × String :=
   match head with
   | "pin" => v { s with pinned := s.pinned + (rw.getD 1 "0").toNat?.getD 0 } none
   | "idl" => v s none
-  | "ini" | "junk" | "rdv" =>
+  | "rdv" =>
+    let cancel := (kvOf w "cancel").toNat?
+    let late : Bool := s.rdvLate || (s.qTime != 0)
+    let entry : Nat × Bool × Nat × Option Nat × String := (s.nOps, w.getD 1 "" == "browse", kvNat w "at", cancel, res)
+    let s := { s with traffic := true, rdvLate := late, rdv := entry :: s.rdv }
+    if (rw.headD "") = "pending" then v { s with pending := (" ".intercalate w) :: s.pending } none else v s none
+  | "ini" | "junk" =>
     let s := { s with traffic := true }
     if (rw.headD "") = "pending" then v { s with pending := (" ".intercalate w) :: s.pending } none else v s none
   | "race" =>
@@ -129,8 +247,15 @@ def sysStep (s : SysSt) (w : List String) (res : String) : SysSt × String :=
   | "quiesce" =>
     let ms := (w.getD 1 "0").toNat?.getD 0
     let settled := ms ≥ settleMs || !s.traffic
-    let s' := { s with settled := settled, traffic := false, pending := [] }
-    if settled then v s' (sysQuiesce s rw) else v s' none
+    let q := s.qTime + ms
+    let s' := { s with settled := settled, traffic := s.traffic && !settled,
+                       pending := if settled then [] else s.pending, qTime := q }
+    match (if settled then sysQuiesce s rw else none) with
+    | some why => v s' (some why)
+    | none =>
+      match rdvTie s rw q with
+      | some d => (s', s!"DIS rendezvous {d}")
+      | none => v s' none
   | "probe" => if s.settled then v s (sysProbe s w rw) else v s none
   | _ => (s, "BAD sys op")
 
@@ -236,7 +361,7 @@ def step (st : St) (line : String) : St × String :=
   let (op, out) := splitArrow line
   match words op with
   | "case" :: _ :: kind =>
-    ({ m := newCase kind, sys := if kind.head? = some "sys" then some {} else none }, "case")
+    ({ m := newCase kind, sys := if kind.head? = some "sys" then some ({ mdnsr := kind.contains "mdnsr=1" } : SysSt) else none }, "case")
   | w =>
     match st.sys with
     | some ss => let (ss', o) := sysStep ss w out; ({ st with sys := some ss' }, o)
